@@ -24,25 +24,72 @@ type access struct {
 // heldLocks: mutex fields M such that (sync.Mutex).Lock(&x.M) dominates `in` in fn and an Unlock of the same
 // mutex is deferred in fn or post-dominates `in`.
 func heldLocks(fn *ssa.Function, in ssa.Instruction) map[string]bool {
+	// forward must-analysis per mutex: held at a point iff on every path from the entry the last operation on the
+	// mutex was Lock (an Unlock that is deferred releases at return only and does not end the section)
 	out := map[string]bool{}
-	for _, l := range callsNamed(fn, "(sync.Mutex).Lock", "(sync.RWMutex).Lock", "(sync.RWMutex).RLock") {
-		lc, ok := l.(*ssa.Call)
-		if !ok || !instrDominates(lc, in) {
-			continue
+	type op struct {
+		lock bool
+		m    string
+	}
+	opOf := func(i ssa.Instruction) (op, bool) {
+		call, ok := i.(*ssa.Call)
+		if !ok {
+			return op{}, false
 		}
-		m := ex(lc.Call.Args[0])
-		released := false
-		for _, u := range callsNamed(fn, "(sync.Mutex).Unlock", "(sync.RWMutex).Unlock", "(sync.RWMutex).RUnlock") {
-			if ex(u.Common().Args[0]) != m {
-				continue
+		switch calleeName(&call.Call) {
+		case "(sync.Mutex).Lock", "(sync.RWMutex).Lock", "(sync.RWMutex).RLock":
+			return op{true, ex(call.Call.Args[0])}, true
+		case "(sync.Mutex).Unlock", "(sync.RWMutex).Unlock", "(sync.RWMutex).RUnlock":
+			return op{false, ex(call.Call.Args[0])}, true
+		}
+		return op{}, false
+	}
+	mutexes := map[string]bool{}
+	for _, i := range allInstrs(fn) {
+		if o, ok := opOf(i); ok && o.lock {
+			mutexes[o.m] = true
+		}
+	}
+	for m := range mutexes {
+		inB := map[*ssa.BasicBlock]bool{}
+		outB := map[*ssa.BasicBlock]bool{}
+		for _, b := range fn.Blocks {
+			inB[b], outB[b] = true, true
+		}
+		inB[fn.Blocks[0]] = false
+		transfer := func(b *ssa.BasicBlock, held bool, stop ssa.Instruction) bool {
+			for _, i := range b.Instrs {
+				if i == stop {
+					return held
+				}
+				if o, ok := opOf(i); ok && o.m == m {
+					held = o.lock
+				}
 			}
-			if _, isDefer := u.(*ssa.Defer); isDefer {
-				released = true
-			} else if postDominatesInstr(fn, u, in) && !reachInstr(u, in) {
-				released = true
+			return held
+		}
+		for changed := true; changed; {
+			changed = false
+			for _, b := range fn.Blocks {
+				v := b != fn.Blocks[0]
+				if b == fn.Blocks[0] {
+					v = false
+				} else {
+					for _, p := range b.Preds {
+						v = v && outB[p]
+					}
+					if len(b.Preds) == 0 {
+						v = false
+					}
+				}
+				o := transfer(b, v, nil)
+				if v != inB[b] || o != outB[b] {
+					inB[b], outB[b] = v, o
+					changed = true
+				}
 			}
 		}
-		if released {
+		if in.Block() != nil && transfer(in.Block(), inB[in.Block()], in) {
 			out[m] = true
 		}
 	}
@@ -409,38 +456,46 @@ func ruleWriteAPIs(c *Ctx, rule string) {
 // ruleRawPassthrough (R15.2 part 2 / shared with R8.1).
 func ruleRawPassthrough(c *Ctx, rule string) {
 	r := c.R
-	w := c.Fn("pkg/frame", "Writer.Write")
-	if w == nil {
-		return
-	}
-	var guard *ssa.If
-	var notRaw *ssa.BasicBlock
-	for _, iff := range ifsIn(w) {
-		if _, fb, _, hit := succWhenFunc(iff, func(cs string) bool {
-			return strings.HasSuffix(cs, ".(*message.MessageRaw)?#1") && !strings.HasPrefix(cs, "!")
-		}); hit {
-			guard, notRaw = iff, fb
-		}
-	}
-	bad := ""
-	if guard == nil {
-		bad = "no `is *MessageRaw` test"
-	} else {
-		for _, in := range allInstrs(w) {
-			mut := false
-			switch x := in.(type) {
-			case *ssa.Store:
-				o := fieldStructName(x.Addr)
-				mut = o == "frame.V1Frame" || o == "frame.V2Frame" || o == "message.MessageRaw"
-			case *ssa.Call:
-				mut = isEncodeCall(calleeName(&x.Call))
+	for _, t := range []struct{ pk, name, label string }{{"pkg/frame", "Writer.Write", "frame.Writer.Write"}, {"root", "Node.encodeFrame", "Node.encodeFrame"}} {
+		var w *ssa.Function
+		if t.pk == "root" {
+			// the node's encoder runs in the caller's goroutine on a frame that earlier Write* calls may already have
+			// handed to channel writers: it must leave a frame that carries a raw message untouched as well
+			if w = c.FnOpt(t.pk, t.name); w == nil {
+				continue
 			}
-			if mut && !edgeMustPass(w, edge{guard.Block(), notRaw}, in.Block()) {
-				bad = "frame mutated at " + c.Pos(in.Pos()) + " even when it already carries a raw message"
+		} else if w = c.Fn(t.pk, t.name); w == nil {
+			continue
+		}
+		var guard *ssa.If
+		var notRaw *ssa.BasicBlock
+		for _, iff := range ifsIn(w) {
+			if _, fb, _, hit := succWhenFunc(iff, func(cs string) bool {
+				return strings.HasSuffix(cs, ".(*message.MessageRaw)?#1") && !strings.HasPrefix(cs, "!")
+			}); hit {
+				guard, notRaw = iff, fb
 			}
 		}
+		bad := ""
+		if guard == nil {
+			bad = "no `is *MessageRaw` test"
+		} else {
+			for _, in := range allInstrs(w) {
+				mut := false
+				switch x := in.(type) {
+				case *ssa.Store:
+					o := fieldStructName(x.Addr)
+					mut = o == "frame.V1Frame" || o == "frame.V2Frame" || o == "message.MessageRaw"
+				case *ssa.Call:
+					mut = isEncodeCall(calleeName(&x.Call)) && calleeName(&x.Call) != "(gomavlib.Node).encodeFrame"
+				}
+				if mut && !edgeMustPass(w, edge{guard.Block(), notRaw}, in.Block()) {
+					bad = "frame mutated at " + c.Pos(in.Pos()) + " even when it already carries a raw message"
+				}
+			}
+		}
+		r.Check(bad == "", rule, t.label+" raw passthrough", c.Pos(w.Pos()), "a frame carrying a raw message is only read", bad)
 	}
-	r.Check(bad == "", rule, "frame.Writer.Write raw passthrough", c.Pos(w.Pos()), "a frame carrying a raw message is only read by the writer", bad)
 }
 
 // ruleOwnership (R15.4): objects cross goroutines by ownership transfer, and shared objects are not mutated.
